@@ -52,6 +52,7 @@ class AdaptationSet(ObjectWithFields):
         'timescale': 1,
         'segmentAlignment': True,
         'segment_timeline': False,
+        'startWithSAP': 1,
         'drm': None,
         'default_kid': None,
         'lang': None,
